@@ -23,11 +23,12 @@ CONSTANTS Kinds,      \* request kinds the client may send
           MaxConns,   \* connections, used one after the other
           CtxIds      \* identities of ctx objects
 
-\* kinds: "get" "form" "multipart" "chunked" (ordinary), "bad" (parse error), "reject" (expectation
-\* rejected), "timeout" (TimeoutHandler fires), "hijack", "hclose" (handler asks for close),
+\* kinds: "get" "form" "multipart" "chunked" (ordinary), "getnv" / "formnv" (query string / form
+\* whose LAST argument has no '=': argument slots are reused between requests), "bad" (parse error), "reject" (expectation
+\* rejected; "rejectnb": the rejected request declares no body), "timeout" (TimeoutHandler fires), "hijack", "hclose" (handler asks for close),
 \* "abort" (chunked body cut inside a chunk, then the client goes away: with StreamRequestBody the
 \* handler is dispatched and finds the body broken, otherwise reading the body fails)
-Ends(k) == k \in {"bad", "reject", "hijack", "hclose", "abort"}     \* connection ends after this request
+Ends(k) == k \in {"bad", "reject", "rejectnb", "hijack", "hclose", "abort"}     \* connection ends after this request
 
 VARIABLES
   stream,   \* StreamRequestBody (server configuration, fixed for the history)
@@ -44,7 +45,7 @@ VARIABLES
 
 vars == <<stream, pool, ctx, late, cur, conn, phase, n, kind, hist, seen>>
 
-Dispatches(k) == k \notin {"bad", "reject"} /\ (k = "abort" => stream)
+Dispatches(k) == k \notin {"bad", "reject", "rejectnb"} /\ (k = "abort" => stream)
 
 Clean == [req |-> 0, uv |-> {}, resp |-> 0]
 
